@@ -34,6 +34,7 @@ UNSAFE_CALLEE = re.compile(r'(get_unchecked(_mut)?|from_raw_parts(_mut)?|transmu
 def run(ctx):
     unsafe_inventory(ctx)
     premises(ctx)
+    caller_premises(ctx)
     complete(ctx)
     timedpath(ctx)
     cursor(ctx)
@@ -696,3 +697,58 @@ def divnodes(ctx):
     v, _d = Prover(an.names, assume=[]).eq(r, want)
     ctx.check(v == 'PROVED', R, 'update_div_nodes|returned cursor', 'the cursor returned is the split cursor plus the number of spliced-in nodes (len(div_nodes_new) - 1)',
               'returns %s' % show(r, an.names)[:160], w)
+
+
+def caller_premises(ctx):
+    """C05-1.premises (callers): `add_blocking_trains` writes its sentinel without a bounds check at base.idx_end and scans from
+    base.idx_begin; its own assert — the base view ends exactly at the end of the buffer — is what makes both in bounds, and an
+    assert that fails is an abort of the whole dispatch.  So every caller must establish it: at each call the path condition
+    states len(buffer) == base.idx_end for the very view passed as base, or the base view is built in place to end at the buffer's
+    length."""
+    R = 'C05-1.premises'
+    prog = ctx.prog
+    eng = engine(ctx)
+    b = prog.find_fn('add_blocking_trains')
+    if b is None:
+        ctx.unproved(R, 'add_blocking_trains|callers', 'anchor not found'); return
+    inv = inventory(ctx)
+    n = 0
+    for caller_fid in sorted(inv.callers(b.fid)):
+        cb = prog.by_id.get(caller_fid)
+        if cb is None or cb.test:
+            continue
+        eng.all_paths.add(cb.fid)
+        eng.ana.pop(cb.fid, None); eng.summ.pop(cb.fid, None)
+        ca = analysis_or_fail(ctx, R, cb)
+        if ca is None:
+            continue
+        for c in ca.calls:
+            if not (c.targets and b.fid in c.targets):
+                continue
+            n += 1
+            pt = c.pointees or []
+            buf = pt[0] if len(pt) > 0 else None
+            base = pt[1] if len(pt) > 1 else None
+            key = 'add_blocking_trains <- %s' % caller_fid
+            k2 = sum(1 for r_ in ctx.results if r_.rule == R and r_.key.startswith(key))
+            if k2:
+                key += ' #%d' % (k2 + 1)
+            if buf is None or base is None:
+                ctx.unproved(R, key, 'buffer / base view argument not visible at the call', ctx.where(cb, c.span)); continue
+            ok = False
+            how = ''
+            if base[0] == 'agg':
+                end = dict(base[2]).get('idx_end')
+                ok = end is not None and _core(end) == ('len', buf)
+                how = 'the base view is built in place to end at the buffer length'
+            else:
+                endp = ('proj', base, ('f', 'idx_end')) if base[0] != 'pre' else ('pre', base[1] + (('f', 'idx_end'),))
+                for cnd, o in c.pc:
+                    if cnd[0] == 'eq' and o != '0':
+                        a_, b_ = _core(cnd[1]), _core(cnd[2])
+                        if {repr(a_), repr(b_)} == {repr(('len', buf)), repr(_core(endp))}:
+                            ok = True
+                how = 'the call is made under len(buffer) == base.idx_end for the view passed as base'
+            ctx.check(ok, R, key, how, 'the precondition asserted by add_blocking_trains (base view ends at the end of the buffer) is not established for the base argument %s; path condition: %s' % (
+                show(base, ca.names)[:80], [(show(x, ca.names)[:90], o) for x, o in c.pc][-2:]), ctx.where(cb, c.span))
+    ctx.floor('call sites of add_blocking_trains', n, 3)
